@@ -52,6 +52,10 @@ def run(prog, R, tier="quick", only_rule=None):
     c06g(prog, R, L)
     c06h(prog, R, L)
     c06j(prog, R)
+    c06l(prog, R)
+    # a reader at a published snapshot keeps finding its version: the version GC bound (shared with C20.d)
+    from rules.props import c20
+    c20.c20d(prog, R, rid="C06.k")
 
 
 def held_classes(L, f, bb, must=True):
@@ -515,3 +519,67 @@ def c06j(prog, R, rid="C06.j"):
 
 def deep_origins_paths(prog, f, op):
     return [o for (_g, o) in deep_origins(prog, f, op)]
+
+
+def c06l(prog, R, rid="C06.l"):
+    """L0 runs overlap and are ordered by age.  A leveled payload that takes tables out of L0 takes the whole level: a payload
+    that leaves out the L0 tables another compaction currently hides moves *newer* data below *older* data that is still on its
+    way down (the worker's fail-safe only inspects the tables a payload names).  So the L0 part of a payload is
+    `list_ids()` of the level, unfiltered; a busy L0 is handled by declining, not by sub-setting."""
+    r = R.rule(rid, "a leveled compaction takes L0 as a whole, never the not-hidden subset", "D")
+    name = "<compaction::leveled::Strategy as compaction::CompactionStrategy>::choose"
+    f = prog.fn(name)
+    if f is None:
+        r.anchor_missing(name)
+        return
+    SUBSET = ("Iterator::filter", "Iterator::filter_map", "Iterator::skip", "Iterator::take", "Iterator::skip_while",
+              "Iterator::take_while", "Vec::retain", "HashSet::retain", "Iterator::step_by")
+    n = 0
+    for i, b in enumerate(f.blocks):
+        for st in b["stmts"]:
+            if not (st["k"] == "assign" and st["rv"]["k"] == "agg" and st["rv"].get("adt") == "compaction::Input"):
+                continue
+            idx = st["rv"]["fields"].index("table_ids")
+            calls = _chain_calls(prog, f, st["rv"]["ops"][idx])
+            l0 = False
+            for c in calls:
+                if c.sres == "version::Version::l0":
+                    l0 = True
+                if c.sres == "version::Version::level" and len(c.args) > 1 and c.args[1].get("o") == "const" and str(c.args[1].get("v")) == "0":
+                    l0 = True
+            if not l0:
+                continue
+            n += 1
+            names = {c.sres for c in calls}
+            whole = any(x.endswith("Level::list_ids") for x in names)
+            sub = sorted(short(x) for x in names if x.endswith(SUBSET))
+            r.check(whole and not sub, "%s|payload #%d from L0 = level.list_ids(), unfiltered" % (name, n),
+                    "a payload takes a filtered subset of L0 (%s): newer L0 tables can be compacted past older ones that another "
+                    "compaction still holds" % (sub or "no list_ids()"), f.where(i), str(sorted(short(x) for x in names)))
+    if n < 3:
+        r.anchor_missing("leveled payloads built from L0 (found %d, confirmed 3)" % n)
+    r.floor(3)
+
+
+def _chain_calls(prog, f, op, depth=8):
+    out = []
+    seen = set()
+
+    def walk(fn_, op_, d):
+        if d < 0 or op_ is None:
+            return
+        for o in origins(fn_, op_):
+            if o.kind == "call":
+                c = o.extra
+                if (fn_.path, c.bb) in seen:
+                    continue
+                seen.add((fn_.path, c.bb))
+                out.append(c)
+                for cb in prog.callbacks(c):
+                    g = prog.fns.get(cb)
+                    if g is not None:
+                        out.extend(g.calls)
+                for a_ in c.args:
+                    walk(fn_, a_, d - 1)
+    walk(f, op, depth)
+    return out
